@@ -364,6 +364,11 @@ YR_API void yr_scanner_destroy(YR_SCANNER* scanner)
   yr_free(scanner->profiling_info);
 #endif
 
+  // A scan suspended with ERROR_BLOCK_NOT_READY keeps its notebook for the
+  // call that resumes it; if the scanner is destroyed instead, release it.
+  if (scanner->matches_notebook != NULL)
+    yr_notebook_destroy(scanner->matches_notebook);
+
   yr_free(scanner->rule_matches_flags);
   yr_free(scanner->ns_unsatisfied_flags);
   yr_free(scanner->required_eval);
